@@ -139,4 +139,46 @@ theorem render_invariant :
           | kern k w => simp [Item.isDisc] at hd
           | other k p => simp [Item.isDisc] at hd
 
+/-! ## The driver's greedy alignment only ever produces marks that satisfy P1 -/
+
+theorem align_sound : ∀ (out inp : List Item) (marks : List Bool),
+    align inp out = some marks → P1 marks out inp = true := by
+  intro out
+  induction out with
+  | nil =>
+    intro inp marks h
+    cases inp with
+    | nil => simp [align] at h; subst h; simp [P1, allMarkedDisc, erase]
+    | cons i inp => simp [align] at h
+  | cons o out ih =>
+    intro inp marks h
+    cases inp with
+    | nil =>
+      simp only [align] at h
+      split at h
+      · rename_i hd
+        simp only [Option.map_eq_some_iff] at h
+        obtain ⟨ms, hms, rfl⟩ := h
+        have := ih [] ms hms
+        simp only [P1, Bool.and_eq_true, decide_eq_true_eq] at this ⊢
+        simp [allMarkedDisc, erase, hd, this.1, this.2]
+      · cases h
+    | cons i inp =>
+      simp only [align] at h
+      split at h
+      · rename_i heq
+        simp only [Option.map_eq_some_iff] at h
+        obtain ⟨ms, hms, rfl⟩ := h
+        have := ih inp ms hms
+        simp only [P1, Bool.and_eq_true, decide_eq_true_eq] at this ⊢
+        simp [allMarkedDisc, erase, heq, this.1, this.2]
+      · split at h
+        · rename_i hd
+          simp only [Option.map_eq_some_iff] at h
+          obtain ⟨ms, hms, rfl⟩ := h
+          have := ih (i :: inp) ms hms
+          simp only [P1, Bool.and_eq_true, decide_eq_true_eq] at this ⊢
+          simp [allMarkedDisc, erase, hd, this.1, this.2]
+        · cases h
+
 end C14
